@@ -53,8 +53,10 @@ TRUSTED_BASE = [
     "LIMIT, the level enum and MUGGLE_LOGGER_MAX_HANDLER are re-extracted from the headers into coq/gen/Params_C16.v on every run",
 ]
 ASSUMPTIONS = [
-    "handler levels and formatters are set before add_handler (as muggle_log_simple_init / _complicated_init do); payloads "
-    "contain no NUL and no newline; no logging concurrent with or after destroy; a formatter line ends with a newline",
+    "handler formatters are set before add_handler; handler levels may change at any time between calls "
+    "(muggle_log_handler_set_level): a call is matched against each handler's level at the time of the call (async: at "
+    "the time the writer thread processes it; the driver waits for the writer thread to be idle before a level change); "
+    "payloads contain no NUL and no newline; no logging concurrent with or after destroy; a formatter line ends with a newline",
     "async logger: channel capacity >= 3 (usable capacity >= 1) for destroy to return",
 ]
 EVIDENCE_NOTES = [
@@ -71,6 +73,11 @@ EVIDENCE_NOTES = [
     "async_destroy_clause_in_full combines it with async_destroy_drains and async_no_leak_on_full.",
     "log_no_oob_refuted_before_repair and async_leak_and_hang_before_repair record the defects of the code as first found; "
     "the model the implementation is compared with is the repaired one (commits 59dfdd3, ad89fa8, 0e247d7, cd82dd8).",
+    "known finding stale-lowest-level (pattern of DESIGN.md 3.2): lowering an attached handler's level below the logger's "
+    "snapshot lowest_log_level makes the logger drop calls that are at or above the handler's level; "
+    "handler_level_filter_as_coded states what the code computes for every history, handler_level_filter_exact_partial the "
+    "property outside the class, handler_level_filter_refuted the witness; in-class histories are generated only when the "
+    "class is listed in known_findings.txt (replay findings/C16-stale-lowest-level.case).",
     "quick tier: the extracted handler_write is index-level (quadratic in unary nat), so the quick tier uses a coarse length "
     "grid plus the exact boundary of every built-in handler kind x formatter (edge-*); the thorough tier uses the full grid.",
 ]
@@ -294,10 +301,40 @@ def generate(rng, tier):
                 ops.append(("fail", rng.choice([1, 2])))
             ops.append(("log", rng.choice(LEVELS), j, "s", b"m%d" % j))
         cases.append(_seq("mfail-%d" % i, "async 64", [("cap", 256, "simple")], ops))
-    # (e) level changed after add_handler (outside the stated usage; correspondence only)
-    cases.append(_seq("setlevel-after-add", "sync", [("cap", 768, "simple"), ("cap", 1024, "simple")],
-                      [("log", 512, 1, "s", b"a"), ("set", 0, 256), ("log", 512, 2, "s", b"b"), ("log", 800, 3, "s", b"c"),
-                       ("set", 1, 2000), ("log", 1280, 4, "s", b"d")]))
+    # (e) handler levels changed with muggle_log_handler_set_level between calls (the level is live state, the
+    # logger's lowest_log_level a snapshot): 1, 2 and 3 handlers, sync and async, raised / above FATAL / below TRACE /
+    # lowered but not below the snapshot.  Histories that lower a level below the snapshot are the known finding
+    # stale-lowest-level and are generated only when that class is recorded.
+    fatal = params().get("fatal", 1280)
+    stale_listed = any(k["class"] == "stale-lowest-level" for k in V.load_known_findings(ID))
+    for logger in ("sync", "async 64"):
+        lg = logger.split()[0]
+        cases.append(_seq("lvl-raise-1-%s" % lg, logger, [("cap", 256, "simple")],
+                          [("log", 256, 1, "s", b"a"), ("set", 0, 1024), ("log", 512, 2, "s", b"b"), ("log", 1024, 3, "s", b"c"),
+                           ("set", 0, 300), ("log", 300, 4, "s", b"d"), ("log", 299, 5, "s", b"e"), ("set", 0, 5000),
+                           ("log", 1280, 6, "s", b"f"), ("log", 5000, 7, "s", b"g")]))
+        cases.append(_seq("lvl-above-fatal-1-%s" % lg, logger, [("file", 1536, "simple")],
+                          [("log", lv, 10 + j, "s", b"x%d" % lv) for j, lv in enumerate([1024, 1280, 1281, 1535, 1536, 2000])]))
+        cases.append(_seq("lvl-below-trace-1-%s" % lg, logger, [("cap", -1, "complicated")],
+                          [("log", -2, 1, "s", b"a"), ("log", -1, 2, "s", b"b"), ("set", 0, 0), ("log", -1, 3, "s", b"c"),
+                           ("log", 0, 4, "s", b"d"), ("set", 0, -1), ("log", -1, 5, "s", b"e")]))
+        for nhs in (1, 2, 3):
+            for r in range(2 if tier == "quick" else 12):
+                hs = [(rng.choice(["cap", "file"]), rng.choice(allv), rng.choice(["simple", "complicated"])) for _ in range(nhs)]
+                snap = min([fatal] + [h[1] for h in hs])
+                ops = []
+                for j in range(rng.range(6, 12)):
+                    if rng.chance(1, 3):
+                        ops.append(("set", rng.below(nhs), rng.choice([v for v in allv + [2000, 5000] if v >= snap])))
+                    else:
+                        ops.append(("log", rng.choice(allv + [2000]), 20 + j, "s", b"m%d" % j))
+                cases.append(_seq("lvl-%s-%d-%d" % (lg, nhs, r), logger, hs, ops))
+        if stale_listed:
+            cases.append(_seq("lvl-stale-%s" % lg, logger, [("cap", 768, "simple"), ("cap", 1024, "simple")],
+                              [("log", 512, 1, "s", b"a"), ("set", 0, 256), ("log", 512, 2, "s", b"b"), ("log", 800, 3, "s", b"c"),
+                               ("set", 1, 2000), ("log", 1280, 4, "s", b"d")]))
+            cases.append(_seq("lvl-stale-1-%s" % lg, logger, [("file", 512, "simple")],
+                              [("set", 0, 256), ("log", 256, 1, "s", b"a"), ("log", 512, 2, "s", b"b")]))
     # (f) real threads
     tn = [1, 2, 4, 8, 16]
     msgs = 40 if tier == "quick" else 400
@@ -488,7 +525,9 @@ def _mon_seq(cfg, lines, limit):
     levels = [h[1] for h in cfg["hs"]]
     lowest_at_add = min([p.get("fatal", 1280)] + [levels[i] for i in range(len(levels)) if att[i]])
     expect = {}
+    coded = {}          # what the code's stale snapshot lets through (known finding stale-lowest-level)
     rets = {i: [] for i in range(len(cfg["hs"]))}
+    rets_coded = {i: [] for i in range(len(cfg["hs"]))}
     fail = 0
     for o in cfg["ops"]:
         if o[0] == "set":
@@ -506,11 +545,14 @@ def _mon_seq(cfg, lines, limit):
         for i, (kind, _hl, fmt) in enumerate(cfg["hs"]):
             if not att[i]:
                 continue
-            if level >= levels[i] and level < lowest_at_add:
-                return None     # level lowered after add_handler: outside the stated usage
             if level < levels[i] or dropped:
                 continue
+            # the property: level >= the handler's level AT THE TIME OF THE CALL -> exactly one line.
+            # (the code also tests the logger's snapshot lowest_log_level, taken in add_handler)
+            stale = level < lowest_at_add
             line = cut_line(format_line(fmt, level, srcline, 4242, cfg["clock"], payload), limit)
+            if not stale:
+                rets_coded[i].append(len(line))
             rets[i].append(len(line))
             if kind.startswith("con"):
                 tag = "err" if level >= warning else "out"
@@ -519,6 +561,8 @@ def _mon_seq(cfg, lines, limit):
             else:
                 tag = "file"
             expect[(tag, i)] = expect.get((tag, i), b"") + line
+            if not stale:
+                coded[(tag, i)] = coded.get((tag, i), b"") + line
     f = [ln for ln in lines if ln.startswith("F ")]
     if not f:
         return "no summary line (run did not finish)"
@@ -542,6 +586,11 @@ def _mon_seq(cfg, lines, limit):
             g = got.get((tag, i))
             if g is None:
                 return "no '%s %d' stream in the output" % (tag, i)
+            if g != e and g == coded.get((tag, i), b""):
+                return ("stale-lowest-level: handler %d (%s) misses %d byte(s) of lines whose level is at or above the "
+                        "handler's current level: the handler's level was lowered with muggle_log_handler_set_level after "
+                        "add_handler and the logger's cached lowest_log_level (%d) still drops those calls" % (
+                            i, kind, len(e) - len(g), lowest_at_add))
             if g != e:
                 k = _first_diff(g, e)
                 return ("handler %d (%s) stream '%s': %d bytes, expected %d (one formatted line, cut at %d bytes, per "
@@ -814,7 +863,21 @@ def known_class(case, failure_text):
     if cfg["mode"] == "vs" and cfg["async"] and usable_capacity(cfg["cap"]) == 0 and failure_text and \
             "does not terminate" in failure_text:
         return "async-capacity-unusable"
+    if cfg["mode"] == "seq" and failure_text and failure_text.startswith("stale-lowest-level") and in_stale_class(cfg):
+        return "stale-lowest-level"
     return None
+
+
+def in_stale_class(cfg):
+    """Mirror of the Coq predicate in_stale_class: some setlevel lowers an attached handler's level below the
+    logger's snapshot (min of FATAL and the levels the handlers had when they were attached)."""
+    att = _attached(cfg)
+    levels = [h[1] for h in cfg["hs"]]
+    snap = min([params().get("fatal", 1280)] + [levels[i] for i in range(len(levels)) if att[i]])
+    for o in cfg["ops"]:
+        if o[0] == "set" and 0 <= o[1] < len(levels) and att[o[1]] and o[2] < snap:
+            return True
+    return False
 
 
 MANIFEST = {
